@@ -60,6 +60,11 @@ func hasPropClause(c *Contract, prop string) bool {
 			return true
 		}
 	}
+	for _, cls := range c.Asserts {
+		if chk(cls) {
+			return true
+		}
+	}
 	for _, td := range c.Taints {
 		for _, t := range td.Tags {
 			if t == prop {
